@@ -11,6 +11,8 @@ close + re-open.  DESIGN.md §4 C07.
 
 from __future__ import annotations
 
+import os
+
 from .. import c07_exec as X
 from .. import c07_model as M
 from .. import core, explorer
@@ -135,7 +137,10 @@ def run(ctx):
     total = {"states": 0, "transitions": 0}
     runs = []
     all_seeds = []
+    only = [x for x in os.environ.get("VERIF_C07_ONLY", "").split(",") if x]  # development aid: run a subset of the plan
     for entry in plan(ctx.quick):
+        if only and entry[0] not in only:
+            continue
         seeds = seeds_of(entry, caps)
         depth = len(ALPHAS[entry[4]])
         st = explorer.explore(ctx, run_one, seeds, depth)
@@ -146,7 +151,9 @@ def run(ctx):
         all_seeds += seeds
 
     # self-tests of the harness: deterministic replays, forked == plain execution
-    probes = [dict(all_seeds[1], ops=[["rv", [1]], ["ro"]]), dict(all_seeds[-1], ops=[["rc", [0]]]), dict(all_seeds[3], ops=[["cp", [True, False, True, True]], ["rv", [0]]])]
+    ps = seeds_of(("probe", ["Cchain", "Clastun", "S2bow"], NUM, "fresh", "FULL1", {}), caps)
+    probes = [dict(ps[0], ops=[["rv", [1]], ["ro"]]), dict(ps[2], ops=[["rc", [0]]]), dict(ps[1], ops=[["cp", [True, False, True, True]], ["rv", [0]]]),
+              dict(seeds_of(("probe", ["Cfirstun"], ALL, "cold", "FULL1", {}), caps)[0], ops=[["sv", 4, "long"], ["rv", [0]]])]
     ndet = explorer.determinism_check(run_one, probes)
     for h in probes:
         a, b = run_one(h), X.execute_plain(h, ALPHAS, h["caps"])
@@ -167,8 +174,8 @@ def run(ctx):
         transitions=total["transitions"],
         traces_validated_against_impl=total["transitions"],
         distinct_outcomes=len(ctx.outcomes),
-        exhaustive=True,
-        bound="all histories over the per-position alphabets (alphabets[run.alphabet], one list of operation classes per position; "
+        exhaustive=not only,
+        bound=("SUBSET OF THE PLAN (VERIF_C07_ONLY) - " if only else "") + "all histories over the per-position alphabets (alphabets[run.alphabet], one list of operation classes per position; "
               "upper case = complete argument domain: every non-empty index subset + [1,1], [2,0], [n]; every boolean mask; every data x "
               "{shorter, equal, longer}; every kind x {equal, shorter, longer, no values}) from every listed geometry x data set x start state",
         alphabets=ALPHAS,
